@@ -223,15 +223,18 @@ def compare_core(im, dates, vals, bad, fails):
         bad('C17.cagr', {'impl': float(im['cagr']), 'ref': ref['cagr']})
     if not feq(im['mean'], ref['mean']):
         bad('C17.mean', {'impl': float(im['mean']), 'ref': float(ref['mean'])})
-    if not feq(im['sharpe'], ref['sharpe']):
+    # ratios of a (possibly cancelling) mean to a deviation: float noise of the mean is amplified, so 1e-6
+    if not feq(im['sharpe'], ref['sharpe'], 1e-6):
         bad('C17.sharpe', {'impl': float(im['sharpe']), 'ref': ref['sharpe']})
-    so_ok = feq(im['sortino'], ref['sortino'])
-    if not so_ok and math.isinf(ref['sortino']) and ref['sortino_neg_count'] > 1:
-        # identical negative returns: exact deviation 0; floating point may leave ~1e-17 instead
+    so_ok = feq(im['sortino'], ref['sortino'], 1e-6)
+    degenerate = ref['sortino_neg_count'] >= 1 and ref['sortino_neg_distinct'] == 1    # exact deviation is 0
+    if not so_ok and degenerate:
         v = float(im['sortino'])
-        so_ok = (abs(v) > 1e9 and (v > 0) == (ref['sortino'] > 0)) or math.isnan(v)
-    if not so_ok and math.isnan(ref['sortino']) and ref['sortino_neg_count'] > 1 and ref['sortino_neg_distinct'] == 1:
-        so_ok = abs(float(im['sortino'])) > 1e9 or float(im['sortino']) == 0.0
+        if ref['mean'] == 0:
+            so_ok = True            # 0/0: the statement defines no value; float residue decides nan / inf / anything
+        else:
+            # x/0: +-inf exactly, or a huge value of the right sign when a float residue of ~1e-17 is left
+            so_ok = (math.isinf(v) or abs(v) > 1e9) and (v > 0) == (ref['mean'] > 0)
     if not so_ok:
         bad('C17.sortino', {'impl': float(im['sortino']), 'ref': ref['sortino']})
 
@@ -290,10 +293,12 @@ def evaluate(case, workdir):
             continue
         tol = 0.0 if exact else TOL
         for key in ('max_dd', 'cagr', 'sharpe', 'mean'):
-            if not feq(im2[key], im[key], tol):
+            if not feq(im2[key], im[key], tol if (exact or key != 'sharpe') else 1e-6):
                 bad('C17.scale_invariance', {'statistic': key, 'scale': float(factor), 'scaled': float(im2[key]),
                                              'original': float(im[key])})
-        if not feq(im2['sortino'], im['sortino'], tol):
+        refd = definitions(dates, vals)
+        degenerate = refd['sortino_neg_count'] >= 1 and refd['sortino_neg_distinct'] == 1
+        if not degenerate and not feq(im2['sortino'], im['sortino'], tol if exact else 1e-6):
             big = abs(float(im['sortino'])) > 1e9 or math.isinf(float(im['sortino'])) or math.isnan(float(im['sortino']))
             big2 = abs(float(im2['sortino'])) > 1e9 or math.isinf(float(im2['sortino'])) or math.isnan(float(im2['sortino']))
             if exact or not (big and big2):
@@ -372,6 +377,13 @@ def run(tier, res, is_known):
         'Sortino with identical negative returns: exact deviation 0 => inf; a float residue giving |value| > 1e9 accepted',
     ]
     product(point, its, res, is_known, label='curves', sample_every=503, chunk=8)
+    if any(not is_known(v) for v in res.violations):
+        return
+    # moves of one part in a million: a drawdown of 1e-6 is a drawdown
+    tiny_steps = ['0.999999', '1', '1.000001', '0.8', '1.25']
+    tits = [{'start': STARTS[1].isoformat(), 'steps': list(seq)} for n in (1, 2, 3, 4)
+            for seq in itertools.product(tiny_steps, repeat=n)]
+    product(point, tits, res, is_known, label='curves with moves of 1e-6', sample_every=10 ** 9, chunk=8)
     if any(not is_known(v) for v in res.violations):
         return
     lits = long_items(tier)
